@@ -14,7 +14,7 @@
 
     PROVED HERE: C04_errdyn_is_linearisation (all 9 error directions at once, N explicit),
       C04_sensor_coupling_exact, C04_model_in_spec_terms, C04_neglected_small, C04_reduction_2d,
-      C04_propagate_consistent_3d/_2d, C04_errdyn2d_is_linearisation (no-altitude mode), C04_pert_scale.
+      C04_propagate_consistent_3d/_2d, C04_propagate_rows_uniform_3d/_2d (each step uses its own interval), C04_errdyn2d_is_linearisation (no-altitude mode), C04_pert_scale.
     NOT PROVED (see evidence `assumptions`): the exchange of the u- and t-derivatives linking this continuous
       statement to finite-time error growth (finite_step_error_growth_partial), and the quantitative "within the size
       of the neglected terms" over a finite filter step 0.1..2 s (checked numerically on the implementation by
@@ -218,6 +218,24 @@ Theorem C04_propagate_consistent_2d : forall (Fa Fb Ga Gb Aa Ab : mat) (x eg ea 
   is_derive (fun dt => prop2 i dt Fa Fb Ga Gb Aa Ab x eg ea) 0 (rate2 i Fa Fb Ga Gb Aa Ab x eg ea).
 Proof. exact propagate_consistent_2d. Qed.
 Print Assumptions C04_propagate_consistent_2d.
+
+(** every step of propagate_errors is the one-step map with ITS OWN interval: rows 1 and 2 of a three-row trajectory with different dt1, dt2 (9 states) *)
+Theorem C04_propagate_rows_uniform_3d : forall (Fa Fb Fc Ga Gb Gc Aa Ab Ac : mat) (x eg ea : nat -> R) (dt1 dt2 : R) (i : nat),
+  (i < 9)%nat ->
+  propT3 i dt1 dt2 Fa Fb Fc Ga Gb Gc Aa Ab Ac x eg ea = prop3 i dt1 Fa Fb Ga Gb Aa Ab x eg ea /\
+  propT3' i dt1 dt2 Fa Fb Fc Ga Gb Gc Aa Ab Ac x eg ea =
+    prop3 i dt2 Fb Fc Gb Gc Ab Ac (fun j => propT3 j dt1 dt2 Fa Fb Fc Ga Gb Gc Aa Ab Ac x eg ea) eg ea.
+Proof. exact propagate_rows_uniform_3d. Qed.
+Print Assumptions C04_propagate_rows_uniform_3d.
+
+(** every step of propagate_errors is the one-step map with ITS OWN interval: rows 1 and 2 of a three-row trajectory with different dt1, dt2 (7 states) *)
+Theorem C04_propagate_rows_uniform_2d : forall (Fa Fb Fc Ga Gb Gc Aa Ab Ac : mat) (x eg ea : nat -> R) (dt1 dt2 : R) (i : nat),
+  (i < 7)%nat ->
+  propT2 i dt1 dt2 Fa Fb Fc Ga Gb Gc Aa Ab Ac x eg ea = prop2 i dt1 Fa Fb Ga Gb Aa Ab x eg ea /\
+  propT2' i dt1 dt2 Fa Fb Fc Ga Gb Gc Aa Ab Ac x eg ea =
+    prop2 i dt2 Fb Fc Gb Gc Ab Ac (fun j => propT2 j dt1 dt2 Fa Fb Fc Ga Gb Gc Aa Ab Ac x eg ea) eg ea.
+Proof. exact propagate_rows_uniform_2d. Qed.
+Print Assumptions C04_propagate_rows_uniform_2d.
 
 (** the perturbed (INS) state for the error u x is s + u P(s) x *)
 Theorem C04_pert_scale : forall s x u, pert s (xscale u x) = sadd s u (pdelta s x).
